@@ -27,7 +27,7 @@ Definition col_cell (header : list string) (row : list cell) (name : string) : o
 (* the value a row gives to (field f, cluster k): it needs a cluster id and a cell under f *)
 Definition row_gives (header : list string) (row : list cell) (f : string) (k : value) : option value :=
   match col_cell header row "cluster_id", col_cell header row f with
-  | Some ck, Some cf => if value_eqb (try_make_number ck) k then Some (try_make_number cf) else None
+  | Some ck, Some cf => if value_eqb k (try_make_number ck) then Some (try_make_number cf) else None
   | _, _ => None
   end.
 (* the table's value for (f, k): that of the last row that gives one *)
